@@ -752,4 +752,9 @@ def gen_simulate(rng, spec, cfg, closure_names, i, extra_changes=None, date_kind
     if date is None:
         return None
     toggles = [rng.choice(["set", "reset"]) for _ in range(rng.choice([0, 0, 1, 2, 3, 4, 6]))]
-    return {"op": "simulate", "changes": changes, "date": date, "date_kind": kind, "toggles": toggles, "i": i}
+    # read-side traffic between the toggles (while the simulated values are on or off)
+    reads = [rng.choice([None, None, "explain", "str", "sums", "to_json", "plot_values"]) for _ in toggles]
+    targets = sorted(closure_names)
+    read_targets = [[rng.choice(targets) for _ in range(2)] if targets else [] for _ in toggles]
+    return {"op": "simulate", "changes": changes, "date": date, "date_kind": kind, "toggles": toggles, "reads": reads,
+            "read_targets": read_targets, "i": i}
